@@ -7,7 +7,7 @@ from common import BASE_ASSUMPTIONS  # noqa: E402
 RULE = ("HalfLife.tla: the doubling / bisection search over every above-1/2 pattern of every length within the bound - "
         "NoUnderflow, BracketInv, InRange, ResultLaw and the liveness property Terminates (weak fairness, no state "
         "constraint); HalfLifeProof.tla proves NoUnderflow, BracketInv, InRange and the strictly shrinking bracket for EVERY "
-        "length and pattern with the TLA+ proof system (86 obligations; the swapped bracket of the pinned tree fails it); Composite.tla decides the pattern of a concrete integer series exactly in integers, so the machine is "
+        "length and pattern, and ResultLaw for every monotone pattern, with the TLA+ proof system (113 obligations; the swapped bracket of the pinned tree fails it); Composite.tla decides the pattern of a concrete integer series exactly in integers, so the machine is "
         "also started from every series over the alphabet - and from a ramp of length 10..13 under every null mask - and its "
         "result replayed into half_life under a watchdog; "
         "winsorize (3 methods) as clipping to exact rational / surd bounds and Spearman as Pearson of average ranks are "
